@@ -277,7 +277,7 @@ PROPERTY = Property(
           "distinct by (script, finish steps, copy)"),
     obligations=[
         Obligation("vec_equals_sequential", run_vec, strategy=vec_strategy,
-                   examples={"quick": 30, "thorough": 320}, shards={"quick": 12, "thorough": 16},
+                   examples={"quick": 40, "thorough": 320}, shards={"quick": 12, "thorough": 16},
                    shrink_budget={"quick": 40, "thorough": 200}),
         Obligation("autoreset_wrapper", run_wrapper, strategy=wrapper_strategy,
                    examples={"quick": 600, "thorough": 2500}, shards={"quick": 4, "thorough": 4},
@@ -285,6 +285,8 @@ PROPERTY = Property(
     ],
     assumptions=["actions are handed to step() as the training loops do: (num_envs,) integer arrays for Discrete, (num_envs, *shape) "
                  "arrays otherwise",
+                 "reset(seed=s) hands seed s+i to sub-environment i (the gymnasium vector convention this class implements); the "
+                 "reference resets instance i with s+i",
                  "for an agent that has left its episode only shape/dtype of the observation and terminated=True are required",
                  "at the step that finishes an episode either the final step's info or the new episode's info is accepted",
                  "real OS schedules are sampled (worker sleeps), not enumerated; a watchdog timeout counts as a violation only inside "
